@@ -198,7 +198,18 @@ def _output_positions(O, NEXP, NOUT):
             sigs.append(build.struct([Node("name%d" % s, ty="String"), Node("bits%d" % s, ty="usize"), typ], "Signal"))
             sig_root[sigs[-1].root] = s
         eng_.field(me, F("DataRowIteratorTestData", "signals")).target = build.slice_of_items(sigs, "[Signal]")
-        ei = [build.enum_val(eng_, "EntryIndex", "Entry", [build.usize(s), build.usize(s)]) for s in range(NEXP)]
+        # each expected entry either has a header column (Entry) or not (Default): symbolic choice, same signal
+        ei = []
+        for s in range(NEXP):
+            n_ = Node("eidx%d" % s, ty="EntryIndex")
+            n_.tag = z3.BitVec("eidx%d.tag" % s, 64)
+            st.pc.append(z3.ULT(n_.tag, bv64(2)))
+            pe = Node("eidx%d#Entry" % s, ty="EntryIndex")
+            pe.fields = {0: build.usize(s), 1: build.usize(s)}
+            pd = Node("eidx%d#Default" % s, ty="EntryIndex")
+            pd.fields = {0: build.usize(s)}
+            n_.variants = {"Entry": pe, "Default": pd}
+            ei.append(n_)
         eng_.field(me, F("DataRowIteratorTestData", "expected_indices")).target = build.slice_of_items(ei, "[EntryIndex]")
         outs = [build.struct([Node("osig%d" % k, ty="&Signal"), Node("oval%d" % k, ty="value::OutputValue")], "OutputEntry")
                 for k in range(NOUT)]
@@ -267,3 +278,16 @@ def _output_positions(O, NEXP, NOUT):
                     if "osig%d" % j not in roots:
                         R.fail(O, p, "comparison %d for signal %d does not look at answer entry %d" % (j, s, j), extra=[z3.Not(virt)])
             R.prove(O, p, z3.Implies(virt, et == bv64(m.vidx("OutputEntryIndex", "Virtual"))), "virtual signals get a Virtual index")
+
+
+@obligation("C03/row-values-are-this-call's", desc="handle_io: every row's outputs come from a driver call made for that very row "
+            "(exactly one call, its answer handed to the extraction unchanged) - never from an earlier call's answer kept "
+            "somewhere, whatever the row's changed flags say")
+def this_calls_values(O):
+    from . import C02, C13
+    R0 = rep()
+    # a row's values are "this call's" only if the row has a call of its own: the protocol judge (one call per row, of the
+    # right kind) runs before the attribution judge
+    W = dri.WithRep(O, dri.Rep(R0.facts, R0.battery, lambda obs, sc: B.protocol_judge(obs, sc) or R0.judge(obs, sc)))
+    C02.handle_io(W)
+    C13.answer_passed_unchanged(W)
